@@ -267,12 +267,19 @@ def _install_probe():
         for obj, name in ((Frame._axis_group_sort_items, 'sort_items'), (TypeBlocks.group, 'typeblocks_group')):
             codes[getattr(obj, '__wrapped__', obj).__code__] = name
         ucode = util.array_to_groups_and_locations.__code__
+        # the fallback is recognised by structure, not by its text: every line inside an exception handler of the function
+        # (the handler of the TypeError np.unique raises for unorderable keys); direct_lines = its return statements
+        import ast
+        import textwrap
         src, first = inspect.getsourcelines(util.array_to_groups_and_locations)
-        for i, line in enumerate(src):
-            if 'astype(str)' in line:
-                _PROBE['fallback_lines'].add(first + i)
-            if line.strip().startswith('return groups'):
-                _PROBE['direct_lines'].add(first + i)
+        tree = ast.parse(textwrap.dedent(''.join(src)))
+        for node in ast.walk(tree):
+            if isinstance(node, ast.ExceptHandler):
+                for sub in node.body:
+                    for ln in range(sub.lineno, (sub.end_lineno or sub.lineno) + 1):
+                        _PROBE['fallback_lines'].add(first + ln - 1)
+            elif isinstance(node, ast.Return):
+                _PROBE['direct_lines'].add(first + node.lineno - 1)
 
         def on_start(code, offset):
             name = codes.get(code)
@@ -833,7 +840,9 @@ def _judge_group_forms(ctx, case_fp, klass, members, ref, multi, calls):
         if form == 'items':
             _tally_impl(ctx, klass, flags)
         if _PROBE['state'] == 'on':
-            k['str_fallback'] = 'str_fallback' in flags
+            # observed, or predicted by the model (unorderable keys): a refactoring that moves the fallback elsewhere must not turn
+            # the recorded str-collision finding into an alarm
+            k['str_fallback'] = 'str_fallback' in flags or bool(klass.get('unorderable'))
             k['impl'] = '+'.join(f for f in ('sort_items', 'typeblocks_group') if f in flags) or 'other'
         else:
             k['str_fallback'] = bool(klass.get('unorderable'))
@@ -861,7 +870,7 @@ def _tally_impl(ctx, klass, flags):
         if not ran:
             ctx.tally('impl_ran', 'neither(empty or raised)')
         ctx.tally('impl_by_key_kind', f"{'+'.join(ran) or 'none'}:{klass.get('key_resolved')}:{klass.get('keyform')}")
-    if 'str_fallback' in flags:
+    if 'str_fallback' in flags or (_PROBE['state'] != 'on' and klass.get('unorderable')):
         ctx.tally('branch_ran', 'unique_str_fallback')
     elif 'unique_returned' in flags:
         ctx.tally('branch_ran', 'unique_direct')
